@@ -322,14 +322,14 @@ func pathOfD(v ssa.Value, d int) string {
 	case *ssa.UnOp:
 		if x.Op == token.MUL {
 			if a, ok := x.X.(*ssa.Alloc); ok {
+				// a source-level variable that is assigned exactly once is named by its identifier, so that
+				// `tip.Hash`, `&tip`, `*tip` and uses inside closures that capture it all share one root
+				if isSourceVar(a) && storeCount(a) == 1 {
+					return a.Comment
+				}
 				r := reachingStores(x)
 				if !r.escaped && !r.zero && len(r.vals) == 1 {
 					return pathOfD(r.vals[0], d+1)
-				}
-				// a variable captured by a closure (or otherwise address-taken): all loads denote the
-				// variable as long as it is assigned exactly once
-				if a.Comment != "" && storeCount(a) == 1 {
-					return a.Comment
 				}
 				return allocName(a) + "@" + x.Name()
 			}
@@ -398,9 +398,20 @@ func storeCount(a *ssa.Alloc) int {
 	return n
 }
 
+func isSourceVar(a *ssa.Alloc) bool {
+	switch a.Comment {
+	case "", "complit", "varargs", "makeslice", "slicelit", "arraylit", "mapclit":
+		return false
+	}
+	return true
+}
+
 func allocName(a *ssa.Alloc) string {
+	if isSourceVar(a) && storeCount(a) <= 1 {
+		return a.Comment
+	}
 	if a.Comment != "" {
-		return "&" + a.Comment
+		return "&" + a.Comment + "@" + a.Name()
 	}
 	return "&" + a.Name()
 }
